@@ -93,6 +93,18 @@ def _mk(r, units, ads, T, mp, n=None, two=None, extras=False, lscale=1.0):
 _WARM = [0]
 
 
+def _within_pressure_band(iso, q, value, eps):
+    """Is value between the native loadings at q (1 - eps) and q (1 + eps)?"""
+    if eps <= 1e-9:
+        return False
+    pmin, pmax = float(numpy.min(iso.pressure(branch="ads"))), float(numpy.max(iso.pressure(branch="ads")))
+    lo, hi = _call(iso.loading_at, max(q * (1 - eps), pmin)), _call(iso.loading_at, min(q * (1 + eps), pmax))
+    if lo[0] != "ok" or hi[0] != "ok":
+        return False
+    a_, b_ = sorted([float(lo[1]), float(hi[1])])
+    return a_ - 1e-12 * abs(a_) <= value <= b_ + 1e-12 * abs(b_)
+
+
 def _converted_copy(iso, pkw=None, lkw=None, mkw=None):
     """The property's oracle: a reconstructed copy permanently converted; returns (copy or None, exc)."""
     cp = gen.copy_point(iso)
@@ -198,7 +210,9 @@ def _run_pressure_pairs(case, ctx):
                 continue
             if got[0] != "ok":
                 ctx.violation("PointIsotherm.loading_at/foreign-pressure/raises", "loading_at with the pressure in foreign units raised", exc=got[1], stored=a, given=b, q=q / f)
-            elif not close(float(got[1]), float(nat[1]), rt2):
+            elif not close(float(got[1]), float(nat[1]), rt2) and not _within_pressure_band(iso, q, float(got[1]), RU.rtol_for(a[1], b[1]) * 2):
+                # (where pyGAPS's unit table is rounded - torr, mmHg - the supplied pressure is off by up to 3e-4; the loading
+                # follows with the local slope of the isotherm, hence the band in pressure rather than a tolerance on the loading)
                 ctx.violation("PointIsotherm.loading_at/foreign-pressure/value", "a pressure supplied in foreign units is not interpreted like the native one", got=got[1], expected=nat[1], stored=a, given=b)
         # pressure_at returning in requested units == converted copy's native pressure_at
         ls = spec["loading"][:na]
